@@ -192,6 +192,14 @@ def run(ck):
     w = World(ck, exe)
     vecs = gen_vectors(ck, w, 1500 if big else 300)
     model = wv.run_lines([mdrv], ["c%d cli %s" % (i, t) for i, (t, argv, toks) in enumerate(vecs)])
+    # the option loop and the checks after it as the TRANSLATED SOURCE performs them (get_v_opt, parseOpts, parseModeNumber,
+    # getArgsKey, check_ctype/htype, base64 under MiniC, in the environment CliConc.conc builds from the tokens) vs CliModel
+    plines = ["c%d clip %s" % (i, t) for i, (t, argv, toks) in enumerate(vecs)]
+    pm = wv.run_lines([mdrv], plines)
+    ps = wv.run_lines([mdrv, "src"], plines, shards=wv.NCPU)
+    srcbad = [(vecs[int(k[1:])][0], pm.get(k), ps.get(k)) for k in pm if pm.get(k) != ps.get(k)]
+    ck.cov["src_evaluations"] = len(ps)
+    ck.cov["disagreements_source_vs_model"] = len(srcbad)
 
     def one(i):
         return run_bin(exe, vecs[i][1], w.d)
@@ -251,6 +259,9 @@ def run(ck):
             ck.violation("`-d -i F.wenc -o G -k K` with the printed key did not restore F", rep)
     ck.cov["distinct_nontrivial"] = len(distinct)
     ck.cov["disagreements_model_vs_impl"] = corr
+    if srcbad and not ck.violations:
+        ck.violation("correspondence translated option front end (MiniC) vs CliModel no longer checks on %d token lists, no property violation found" % len(srcbad),
+                     {"class": None, "broken": "correspondence translated get_v_opt vs CliModel.parse_all/post_checks", "tokens": srcbad[0][0], "model": srcbad[0][1], "translated_source": srcbad[0][2]}, found_input=False)
     if corr and not ck.violations:
         last["broken"] = "correspondence cli model vs the Wencry binary (exit status / diagnostic)"
         ck.violation("correspondence model/implementation no longer checks on %d option vectors, no property violation found" % corr, last, found_input=False)
